@@ -17,7 +17,7 @@ PLANS = {
     "C07": [("base", 200, 5000), ("fwdonly", 150, 4000), ("errors", 150, 4000), ("redirect", 120, 3000), ("errredir", 80, 2000)],
     "C09": [("gate", 250, 6000), ("fwdonly", 150, 4000)],
     "C10": [("base", 200, 5000), ("fwdonly", 200, 5000), ("redirect", 150, 4000), ("redirorder", 60, 1500)],
-    "C11": [("errors", 300, 8000), ("errredir", 250, 6000), ("hssplit", 30, 600)],
+    "C11": [("errors", 300, 8000), ("errredir", 250, 6000), ("hssplit", 30, 600), ("errsplit", 80, 2000)],
     "C13": [("redirect", 300, 7000), ("redirunk", 150, 3000), ("errredir", 150, 3000), ("redirtimeout", 150, 4000), ("redirmany", 40, 800)],
     "C15": [("bclose", 300, 7000), ("redirunk", 150, 3000), ("partialloss", 40, 1000)],
     "C16": [("timeout", 400, 10000), ("redirtimeout", 200, 5000), ("redirexpire", 80, 2000), ("ripen", 16, 300)],
@@ -174,6 +174,12 @@ def run(pid, tier, seed):
             grp["segpair"] = 4
             groups.append((dict(c8, maxLen=200), gen_core.gen_seg_limit(seed, 8 if q else 150, 200), "seglimit", None))
             grp["seglimit"] = 6
+        if pid in ("C08", "C06"):
+            # successive cut requests of growing length on one connection (the first piece of a request as long as the whole
+            # previous one): nothing of an earlier request's assembly shows up in a later one
+            c8 = {"masters": 3, "mode": "step"}
+            groups.append((c8, gen_core.gen_seg_seq(seed, 30 if q else 600, common.slot_tags(c8)), "segseq", None))
+            grp["segseq"] = 4
         specs = {}
         if pid == "C15":
             # a node that is removed from the topology while a request is in flight on it (the node stays silent)
